@@ -36,11 +36,19 @@ def specs(draw):
     else:
         n_amp = draw(st.integers(1, 4))
         dim = 3
+    many = draw(st.integers(0, 15)) == 8
+    if many:
+        # very long amplitude vectors (mode numbers beyond the order of any fixed quadrature or sampling rule), sparsely filled
+        n_amp = draw(st.sampled_from({"PerturbedDroplet2D": [33, 64, 130, 255, 256, 300, 400], "PerturbedDroplet3D": [24, 48, 63, 120], "PerturbedDroplet3DAxisSym": [12, 30, 60]}[cls]))  # (longer 3-D vectors: see the fixed sweep; the library integrates their volume for tens of seconds)
     pos = [gen.r6(draw(st.floats(-5, 5, **finite))) if draw(st.booleans()) else 0.0 for _ in range(dim)]
     if cls == "PerturbedDroplet3DAxisSym":
         pos[0] = pos[1] = 0.0
     # raw amplitude pattern: several simultaneously non-zero modes
-    if draw(st.booleans()):
+    if many:
+        raw = [0.0] * n_amp
+        for i in draw(st.lists(st.integers(0, n_amp - 1), min_size=0, max_size=2, unique=True)) + [n_amp - 1 - draw(st.integers(0, min(4, n_amp - 1)))]:
+            raw[i] = draw(st.sampled_from([-1.0, 1.0])) * draw(st.floats(0.2, 1, **finite))
+    elif draw(st.booleans()):
         raw = [draw(st.floats(-1, 1, **finite)) if draw(st.integers(0, 2)) else 0.0 for _ in range(n_amp)]
     else:  # sparse: one to three non-zero modes anywhere, so that whole degrees are skipped
         raw = [0.0] * n_amp
@@ -64,6 +72,10 @@ def specs(draw):
     amps = [gen.r6(a * s / size0) for a in raw]
     if regime == "large":  # amplitudes "within bounds": sum |a_k| up to 0.8 keeps the shape star-shaped
         tot = draw(st.floats(0.2, 0.8, **finite))
+        if many and cls != "PerturbedDroplet2D":
+            # |Y_lm| grows like sqrt((2l+1)/(2 pi)): for high degrees the amplitudes must be smaller for the radius function to stay positive
+            lmax = max((degree_3d(k + 1) if cls == "PerturbedDroplet3D" else k + 1) for k, a in enumerate(raw) if a)
+            tot = tot / math.sqrt((2 * lmax + 1) / (2 * math.pi))
         amps = [gen.r6(a * tot / sum(abs(x) for x in raw)) for a in raw]
     ndir = 6
     thetas = [gen.r6(draw(st.floats(0.2, math.pi - 0.2, **finite))) for _ in range(ndir)]
@@ -170,6 +182,36 @@ class C13(Property):
     def strategy(self, tier):
         return specs()
 
+    # long amplitude vectors with sizeable high modes: a fixed sweep (mode numbers beyond the order of fixed quadrature rules)
+    MANY = {"PerturbedDroplet2D": [33, 130, 256, 300, 400], "PerturbedDroplet3D": [48, 120, 224, 440, 624], "PerturbedDroplet3DAxisSym": [12, 30, 60]}
+
+    def exhaustive_jobs(self, tier):
+        jobs = [{"domain": "many-modes", "cls": c, "n_amp": n, "variant": v} for c, ns in self.MANY.items() for n in ns for v in range(2)]
+        if tier == "quick":  # the library integrates the 3-D volume adaptively, which takes 10-40 s for degrees >= 15: only a few of those
+            jobs = [j for j in jobs if j["cls"] != "PerturbedDroplet3D" or (j["n_amp"], j["variant"]) in ((48, 0), (48, 1), (120, 1), (440, 1))]
+        return jobs
+
+    def expand(self, job):
+        cls, n, v = job["cls"], job["n_amp"], job["variant"]
+        raw = [0.0] * n
+        raw[n - 1 - 2 * v] = 1.0
+        if v:
+            raw[n // 3] = -0.6
+        if cls == "PerturbedDroplet2D":
+            w = [lam_2d(i) ** 2 + 1 for i in range(n)]
+            sup = 1.0
+        elif cls == "PerturbedDroplet3D":
+            w = [degree_3d(k) * (degree_3d(k) + 1) + 1 for k in range(1, n + 1)]
+            sup = math.sqrt((2 * degree_3d(n) + 1) / (2 * math.pi))
+        else:
+            w = [l * (l + 1) + 1 for l in range(1, n + 1)]
+            sup = math.sqrt((2 * n + 1) / (2 * math.pi))
+        tot = [0.5, 0.3][v] / sup
+        amps = [gen.r6(a * tot / sum(abs(x) for x in raw)) for a in raw]
+        dim = 2 if cls == "PerturbedDroplet2D" else 3
+        pos = [0.0, 0.0, 1.5][:dim] if dim == 3 else [0.5, -2.0]
+        yield {"cls": cls, "regime": "large", "radius": [2.5, 0.4][v], "position": pos, "amplitudes": amps, "weights": w, "thetas": [0.3, 0.9, 1.4, 1.9, 2.5, 2.9], "phis": [0.1, 1.0, 2.2, 3.3, 4.4, 5.9], "width": None, "res": 0.5}
+
     def check(self, spec, ctx: Ctx):
         import droplets.droplets as D
 
@@ -193,6 +235,8 @@ class C13(Property):
         d = cls(gen.as_given(pos, R0, spec["amplitudes"])[0], R0, spec["width"], amps if len(amps) % 2 else [float(a) for a in amps])
         nz = int(np.count_nonzero(amps))
         ctx.cls(spec["cls"], spec["regime"], f"nonzero-modes:{min(nz, 3)}{'+' if nz > 3 else ''}")
+        if len(amps) > 30:
+            ctx.cls("amplitudes>" + str(max(t for t in (30, 100, 250, 400) if len(amps) > t)))
         ctx.nontrivial = nz >= 2 or not (0.9 <= R0 <= 1.1) or bool(np.any(pos != 0))
         th = np.array(spec["thetas"])
         ph = np.array(spec["phis"])
